@@ -136,6 +136,7 @@ def run(ctx):
             j = rng.randrange(s, len(periods))
             ref_cases.append({'acc': a, 'dt': dt, 'T': periods[j], 'xi': xi, 'u': u[j], 'v': v[j], 'inputs': inputs, 'j': j})
     ctx.flush()
+    object_histories(ctx)
     # compute_a_and_b itself (translator tie): Float twin of the generated definition vs the impl, entry by entry
     for i in range(40 if ctx.tier == 'quick' else 400):
         xi = rng.choice([0.0, 1e-3, 0.05, 0.3, 0.7, 0.99])
@@ -182,3 +183,62 @@ def run(ctx):
             ctx.gap('vs-exact-solution/u(relative to property tolerance)', eu / tol)
             ctx.oracle('C01 displacement/velocity == exact solution of u\'\'+2 xi w u\'+w^2 u = a(t) (40-digit reference, property tolerance)',
                        eu <= tol and ev <= tol, {**c['inputs'], 'period_index': c['j']}, detail={'err_u': eu, 'err_v': ev, 'tol': tol})
+
+
+def object_histories(ctx):
+    """AccSignal.response_series must return the array-level result for the object's CURRENT record, periods and damping after
+    any sequence of calls and changes on the same object (multi-step histories: periods changed by attribute, through
+    gen_response_spectrum / response_series arguments, record replaced or shifted, damping changed and changed back)."""
+    import eqsig
+    from eqsig import sdof
+    rng = ctx.rng
+    for i in range(25 if ctx.tier == 'quick' else 300):
+        n = rng.randint(8, 120)
+        dt = rng.choice([0.01, 0.02, 0.005])
+        a = gen.noise_record(rng, n)
+        asig = eqsig.AccSignal(a.copy(), dt)
+        cur_a = a.copy()
+        cur_rt = np.array(asig.response_times)
+        hist = []
+        for step in range(rng.randint(2, 7)):
+            op = rng.choice(['series()', 'series(rt)', 'series(xi)', 'rt=', 'gen_rs(rt)', 'gen_rs()', 'add_constant', 'reset_values', 's_a'])
+            xi = 0.05
+            if op == 'series(rt)':
+                cur_rt = np.array(sorted(rng.uniform(0.05, 2.0) for _ in range(rng.randint(1, 4))))
+                got = asig.response_series(response_times=cur_rt)
+            elif op == 'series(xi)':
+                xi = rng.choice([0.0, 0.1, 0.05, 0.3])
+                got = asig.response_series(xi=xi)
+            elif op == 'rt=':
+                cur_rt = np.array(sorted(rng.uniform(0.05, 2.0) for _ in range(rng.randint(1, 4))))
+                asig.response_times = cur_rt
+                got = None
+            elif op == 'gen_rs(rt)':
+                cur_rt = np.array(sorted(rng.uniform(0.05, 2.0) for _ in range(rng.randint(1, 4))))
+                asig.gen_response_spectrum(response_times=cur_rt)
+                got = None
+            elif op == 'gen_rs()':
+                asig.gen_response_spectrum()
+                got = None
+            elif op == 'add_constant':
+                c = rng.choice([0.5, -1.0, 2.0])
+                asig.add_constant(c)
+                cur_a = cur_a + c
+                got = None
+            elif op == 'reset_values':
+                cur_a = gen.noise_record(rng, n)
+                asig.reset_values(cur_a.copy())
+                got = None
+            elif op == 's_a':
+                _ = asig.s_a
+                got = None
+            else:
+                got = asig.response_series()
+            hist.append(op)
+            if got is not None:
+                want = sdof.response_series(cur_a, dt, cur_rt, xi)
+                ok = all(np.array_equal(x, y) for x, y in zip(got, want)) and got[0].shape == want[0].shape
+                ctx.hist('object-history/' + op)
+                ctx.oracle('AccSignal.response_series == response_series(current record, current periods, damping) after any history',
+                           ok, {'history': list(hist), 'n': n, 'dt': dt, 'periods': cur_rt}, facts={'history': list(hist)})
+        ctx.count_case(('hist', a.tobytes(), tuple(hist)), True, sample={'fn': 'AccSignal history', 'history': hist} if i < 2 else None)
